@@ -1,0 +1,17 @@
+//go:build verif
+
+// Contracts for package jsonconfig, checked by /verif/govc (see /verif/DESIGN.md).
+// This file contains only comments; it is compiled only with -tags verif and
+// has no effect on the package.
+
+package jsonconfig
+
+// The duration getters multiply a configured number of milliseconds; wrap-around of
+// an absurdly large setting is not an error of interest here.
+//@ func (*Config).TimeoutOnEOF
+//@ requires[C07] config != nil
+//@ arith wrap
+
+//@ func (*Config).WaitTimeOnEOF
+//@ requires[C07] config != nil
+//@ arith wrap
